@@ -4,6 +4,7 @@
 
 #include <Vector/BLF/File.h>
 
+#include <algorithm>
 #include <cstring>
 #include <iostream>
 
@@ -712,7 +713,8 @@ void File::uncompressedFile2ReadWriteQueue() {
     ObjectHeaderBase * obj = createObject(ohb.objectType);
     if (obj == nullptr) {
         /* in case of unknown objectType */
-        m_uncompressedFile.seekg(ohb.objectSize, std::ios_base::cur);
+        /* skip at least the base header, otherwise the same header is read again forever */
+        m_uncompressedFile.seekg(std::max<uint32_t>(ohb.objectSize, ohb.calculateHeaderSize()), std::ios_base::cur);
         return;
     }
 
